@@ -234,6 +234,13 @@ def run(P, rep, tier):
     # rewrite keeps B at its own type
     from .c16 import r_atomic_operand_type
     r_atomic_operand_type(P, rep, 'R02.7')
+    from ..lib_exprparse import r_conversion_sites
+    rep.rule('R02.9', 'implicit conversions at use sites that involve floating types: arguments converted to the parameter type, float arguments passed through ... promoted to double whatever type object carries the float type (shared with R01.4)', floor=3)
+    r_conversion_sites(P, rep, 'R02.9')
+    # && / ||: each operand is tested at its own type (a floating right operand next to an integer left operand, and vice versa)
+    from .c03 import r_logic
+    rep.rule('R02.8', '&& and ||: each operand is compared with zero in its own register class and width (mixed integer/floating operands), left operand first, right operand only when needed, result int 0/1', floor=8)
+    r_logic(cg, rep, 'R02.8')
     r022(cg, rep)
     r024(cg, rep)
     r025_num(cg, rep)
